@@ -729,13 +729,16 @@ def circular_limit(repo):
     except Exception:
         return 10000
 
-def deep_cases(limit):
+def deep_cases(limit, model_too=()):
     """chains around CJSON_CIRCULAR_LIMIT and hand-built 1-/2-/3-cycles, duplicated on a thread with a small stack.
-    info['expect'] = the per-call results and ledger the property demands (request counts are not part of it)"""
+    info['expect_segments'] = the per-call results and ledger the property demands (request counts are not part of it).
+    The extracted model needs minutes for 10^4 live blocks (set union in Heap.v is linear), so these cases carry the
+    S flag (model driver answers MODEL-SKIPPED, the verdict alone judges the implementation) unless their tag is in model_too."""
     cases = []
     def mk(ops_exp, tags):
         ops = [o for o, _ in ops_exp]; segs = [e for _, e in ops_exp]
-        cases.append(Case('hist TX 0 ' + ';'.join(ops), {'tags': ['deep'] + tags, 'expect_segments': segs}))
+        cfg = 'TX' if any(t in model_too for t in tags) else 'TXS'
+        cases.append(Case('hist %s 0 ' % cfg + ';'.join(ops), {'tags': ['deep'] + tags, 'expect_segments': segs}))
     for n in (limit - 1, limit, limit + 1, limit + 2, limit + 3):
         ok = n <= limit + 1          # the deepest node that has a child sits at depth n-2, which must be below the limit
         e = [('chain:%d' % n, 'h0 L%d' % n), ('depth:0', '%d L%d' % (n if n <= 20000 else -1, n))]
